@@ -11,10 +11,18 @@ def main(tier, seed, replay):
     ck = Check("C14", tier, seed)
     ck.coq_theorems()
     runs = [["-replay", replay]] if replay else [["-seed", str(seed), "-n", "480" if tier == "quick" else "6000"]]
-    cases = envcheck.run_harness(ck, "race", runs)
+    cases = envcheck.run_harness(ck, "race", runs) if not (replay and "metaconc" in replay) else []
     if cases is None:
         return ck.finish()
     viol = [c for c in cases if c.get("viol")]
+    # the SDK's own in-memory metastore under racing Stores of one key: exactly one wins, a stored record is never replaced
+    mruns = [["-replay", replay]] if replay and "metaconc" in replay else [["-seed", str(seed + 5), "-n", "120" if tier == "quick" else "1500"]]
+    mcases = envcheck.run_harness(ck, "metaconc", mruns) if not (replay and "metaconc" not in replay) else []
+    if mcases is None:
+        return ck.finish()
+    mviol = [c for c in mcases if c.get("viol")]
+    ck.oblige(not mviol, "in-memory metastore: racing Stores of one key never replace a stored record (%d controlled schedules)" % len(mcases), json.dumps(mviol[:1])[:3000])
+    ck.cov["memory_metastore_store_schedules"] = len(mcases)
     nt = set(json.dumps([c["state"], c["cfg"], c["procs"], c.get("trace")]) for c in cases if c.get("refused", 0) >= 1)
     ck.cov.update({
         "evaluations": len(cases), "distinct_nontrivial": len(nt),
@@ -26,7 +34,10 @@ def main(tier, seed, replay):
     })
     ck.cov["trusted_base"] += ["processes are goroutines with separate factories and caches sharing one in-memory metastore and KMS; interleaving granularity = metastore calls",
                                "the metastore spy is insert-only (C13 is about the real implementations)"]
-    if viol:
+    if mviol:
+        v = mviol[0]
+        ck.violation(ck.replay_file("metaconc", {"what": v["viol"], "Case": {k: v[k] for k in ("seed", "threads", "keys")}, "schedule": v.get("trace")}))
+    elif viol:
         v = viol[0]
         ck.violation(ck.replay_file("race", {"what": v["viol"], "Case": {k: v[k] for k in ("state", "cfg", "procs", "seed")}, "schedule": v.get("trace")}))
     elif ck.discharged != ck.obligations:
